@@ -311,7 +311,7 @@ def check_copies(ctx):
     for key in keys:
         sl = simloop.SimLoop(ctx, key)
         sname = sl.state_name()
-        init = sl.prelude_assign(sname)
+        init = sl.prelude_assign(sname, resolve=True)
         problems = []
         if init is None or src(init).replace(' ', '') != 'sim.get_initial_state().copy()':
             problems.append('working state bound to %s' % (src(init) if init is not None else None))
@@ -360,8 +360,12 @@ def check_copies(ctx):
     f = ctx.fn('simulator:DeterministicSimulator._helper_simulate')
     problems = []
     asg = {src(s.targets[0]): src(s.value).replace(' ', '') for s in f.body if isinstance(s, ast.Assign)}
-    if asg.get('x0') != 'sim.get_initial_state().copy()':
-        problems.append('x0 = %s' % asg.get('x0'))
+    # the state the integrator starts from: the second argument of the odeint call, whatever the local is called
+    y0 = [src(c.args[1]) for c in ast.walk(f) if isinstance(c, ast.Call) and src(c.func).split('.')[-1] == 'odeint' and len(c.args) >= 2]
+    if len(set(y0)) != 1:
+        raise AnalysisError('_helper_simulate: odeint call not found')
+    if asg.get(y0[0]) != 'sim.get_initial_state().copy()':
+        problems.append('%s = %s' % (y0[0], asg.get(y0[0])))
     calls = [c for c in ast.walk(f) if isinstance(c, ast.Call) and isinstance(c.func, ast.Attribute) and src(c.func.value) == 'sim'
              and c.func.attr in ('set_initial_state', 'py_set_initial_state', 'set_param_values', 'py_set_param_values')]
     for c in calls:
